@@ -29,9 +29,9 @@ type c13Params struct {
 
 func c13Tier(tier string) c13Params {
 	if tier == "thorough" {
-		return c13Params{repoFlagSets: 12, deep: 60, uclass: 400, lrrec: 200, gen: 5000, genFree: 2500, mut: 9000, bytes: 2500, faultsPer: 6, sessionLen: 32, realBinary: 60}
+		return c13Params{repoFlagSets: 12, deep: 90, uclass: 400, lrrec: 200, gen: 5000, genFree: 2500, mut: 9000, bytes: 2500, faultsPer: 6, sessionLen: 32, realBinary: 60}
 	}
-	return c13Params{repoFlagSets: 1, deep: 6, uclass: 16, lrrec: 10, gen: 70, genFree: 40, mut: 170, bytes: 30, faultsPer: 4, sessionLen: 24, realBinary: 12}
+	return c13Params{repoFlagSets: 1, deep: 12, uclass: 16, lrrec: 10, gen: 70, genFree: 40, mut: 170, bytes: 30, faultsPer: 4, sessionLen: 24, realBinary: 12}
 }
 
 func c13Inputs(seed uint64, p c13Params, src string) []toolInput {
@@ -205,6 +205,16 @@ func c13Judge(in toolInput, kind string, c *tooldriver.Case, o outcome, base *ou
 		return r.Stdout
 	}
 	switch kind {
+	case "cachetwin":
+		if b.StepCapHit || run.StepCapHit {
+			return "", "" // the side without -cache may take exponential time (documented)
+		}
+		if run.Exit != b.Exit {
+			return "cache-dependent-verdict", fmt.Sprintf("exit %d, but %d when -cache is toggled", b.Exit, run.Exit)
+		}
+		if !debug && run.Exit == 0 && !noOutputExpected && outSum(run) != outSum(b) {
+			return "cache-dependent-output", "generated bytes differ when -cache is toggled"
+		}
 	case "twin":
 		// the verdict and the generated bytes do not depend on how the text is delivered
 		if run.Exit != b.Exit {
@@ -321,6 +331,19 @@ func runC13(tier string) int {
 			continue // every variant would only spend the same logical-time budget again
 		}
 		add("twin", delivery{viaFile: !d.viaFile, outFile: !d.outFile}, simos.NoFaults())
+		{
+			// -cache only trades memory for time: with and without it the verdict
+			// and the generated bytes are the same
+			in2 := in
+			if contains(in.Flags, "-cache") {
+				in2.Flags = removeArgs(in.Flags, "-cache", 1)
+			} else {
+				in2.Flags = append([]string{"-cache"}, in.Flags...)
+			}
+			c := makeCase(fmt.Sprintf("cachetwin-%d", i), in2, d, simos.NoFaults(), simmap.Asc, 0, 1)
+			c.StepCap = stepCapFor(len(in.Grammar))
+			varJobs = append(varJobs, job{i, c13Variant{"cachetwin", c}})
+		}
 		if b.Status != "ok" {
 			continue
 		}
